@@ -187,7 +187,7 @@ def verify_add_command(repo):
     try:
         outs = list(eng.run_function(fi, st, {"self": prog_ref, "command_cls": dyn(Val.O(cc)), "result_name": dyn(rn), "arguments": dyn(args), "lineno": lineno}, cls=fi.cls))
     except Unsupported as e:
-        recs.append({"name": label + "/supported", "status": "unknown", "backend": "engine", "time_s": 0, "function": fi.key, "clause": "wf", "reason": "unsupported: %s" % e})
+        recs.append({"name": label + "/supported", "status": "unknown", "backend": "engine", "time_s": 0, "function": fi.key, "clause": "supported", "reason": "unsupported: %s" % e})
         smt.QUANT["on"] = False
         return recs, [fi.describe()]
     for s1, out in outs:
@@ -239,9 +239,10 @@ def verify_add_command(repo):
             _, _, key, val = stores[0]
             vt = eng.to_dyn(s1, val)
             c = Val.ref(vt)
-            eng.oblige(s1, label + "/the command is stored under its result name, knows its program and line",
-                       z3.And(eng.to_dyn(s1, key) == rn, IS_COMMAND(c), FLD("result_name")(c) == rn, FLD("lineno")(c) == lineno.t, FLD("program")(c) == prog_term),
+            eng.oblige(s1, label + "/the command is stored under its result name and knows its program",
+                       z3.And(eng.to_dyn(s1, key) == rn, IS_COMMAND(c), FLD("result_name")(c) == rn, FLD("program")(c) == prog_term),
                        kind="ensures", meta=m("wf"), assume_after=False)
+            eng.oblige(s1, label + "/the command carries the line handed to add_command", FLD("lineno")(c) == lineno.t, kind="ensures", meta=m("lineno"), assume_after=False)
     recs.append({"name": label + "/paths", "status": "unsat" if npaths else "sat", "backend": "engine", "time_s": 0, "function": fi.key, "clause": "cover", "kind": "cover"})
     smt.QUANT["on"] = False
     return recs, [fi.describe()]
@@ -785,5 +786,46 @@ def verify_cli(repo):
             failed = any(ev[0] == "mp-error" for ev in s1.log)
             eng.oblige(s1, label + "/returns normally only after the program ran", z3.BoolVal(ran), kind="ensures", meta=m("cli"), assume_after=False)
             eng.oblige(s1, label + "/never returns normally (status 0) after an MPilotError", z3.BoolVal(not failed), kind="ensures", meta=m("cli"), assume_after=False)
+    recs.append({"name": label + "/paths", "status": "unsat" if n else "sat", "backend": "engine", "time_s": 0, "function": fi.key, "clause": "cover", "kind": "cover"})
+    return recs, [fi.describe()]
+
+
+def verify_find_command_class(repo):
+    """Program.find_command_class(name) = command_library.get(name): the class the program's own table holds for exactly that name, else None;
+    nothing else (in particular not the process-wide registry) is consulted (C19: resolution depends only on the requested libraries)"""
+    smt.QUANT["on"] = False
+    eng = Engine(repo, {}, dict(S.LOOPS))
+    install(eng)
+    install_from_source(eng)
+    eng.load_mode = True
+    eng.lx = {}
+    key = PRG + "::Program.find_command_class"
+    fi = repo.func(key)
+    eng.current = fi
+    recs = eng.results
+    st = State()
+    st.add_cell("c")
+    st.kterms.append(z3.IntVal(0))
+    owner = Val.O(z3.IntVal(-1))
+    lib = st.alloc(Obj(ClassV("LibMap"), {"owner": owner}), fresh=False)
+    prog = st.alloc(Obj(ClassV("Program", repo.modules[PRG].classes["Program"]), {"command_library": lib}), fresh=False)
+    name = dyn(smt.fresh("name", Val))
+    st.assume(Val.is_S(name.t))
+    label = key
+    try:
+        outs = list(eng.run_function(fi, st, {"self": prog, "name": name}, cls=fi.cls))
+    except Unsupported as e:
+        recs.append({"name": label + "/supported", "status": "unknown", "backend": "engine", "time_s": 0, "function": fi.key, "clause": "lookup", "reason": "unsupported: %s" % e})
+        return recs, [fi.describe()]
+    n = 0
+    for s1, out in outs:
+        n += 1
+        if out[0] == "raise":
+            eng.oblige(s1, label + "/never raises for a text name", z3.BoolVal(False), kind="raises", meta={"clause": "lookup"}, assume_after=False)
+            continue
+        r = out[1]
+        want = z3.If(LIB_HAS(owner, name.t), Val.O(LIB_GET(owner, name.t)), Val.N)
+        eng.oblige(s1, label + "/returns the program's own table entry for exactly this name, else None", (eng.to_dyn(s1, r) == want), kind="ensures",
+                   meta={"clause": "lookup"}, assume_after=False)
     recs.append({"name": label + "/paths", "status": "unsat" if n else "sat", "backend": "engine", "time_s": 0, "function": fi.key, "clause": "cover", "kind": "cover"})
     return recs, [fi.describe()]
